@@ -7,7 +7,7 @@ from . import compositelib as L
 OCAML = ["composite"]
 GO = ["composite"]
 PROP = "props/C09.v"
-PROOFS = ["proofs/CompositeC09.v", "proofs/CompositeProgress.v", "proofs/CompositeExact.v", "proofs/CompositeProto.v",
+PROOFS = ["proofs/CompositeC09.v", "proofs/CompositeProgress.v", "proofs/CompositeExact.v", "proofs/CompositeExactMs.v", "proofs/CompositeProto.v",
           "proofs/CompositeMeasure.v", "proofs/CompositeTrace.v", "proofs/CompositeLink2.v"] + L.PROOFS_COMMON
 
 
@@ -19,13 +19,18 @@ def run(run):
     fams = [("corpus:corpus/C09/stop-between-setconfig-and-boot.jsonl", 0, 0),
             ("corpus:corpus/C09/stale-stop-on-restarted-child.jsonl", 0, 0),
             ("corpus:corpus/C09/error-during-reload.jsonl", 0, 0), ("corpus:corpus/C09/duplicate-name-objects.jsonl", 0, 0),
+            ("corpus:corpus/C09/membership-multiset.jsonl", 0, 0),
             ("f8", 4, run.seed), ("stale", 4, run.seed), ("errwin", 15 if quick else 150, run.seed), ("multifail", 20 if quick else 200, run.seed + 5),
-            ("c11dup", 8 if quick else 40, run.seed + 3),
+            ("c11dup", 10 if quick else 50, run.seed + 3),
             ("failreload", 48 if quick else 800, run.seed + 7), ("stoperr", 36 if quick else 600, run.seed + 8),
             ("c09", 1450 if quick else 20000, run.seed), ("boot", 300 if quick else 3000, run.seed + 1),
             ("c11", 400 if quick else 5000, run.seed + 2)]
     results, cover, summary, scripts, traces = L.run_families(run, fams)
     cnt = L.classify(run, "C09", results, scripts, traces)
+    for f in run.findings:
+        if f["key"] not in [k for k, _ in run.known_hits]:
+            run.notes.append("the recorded finding %s was not exhibited by this run (family c11dup, shapes 8 and 9): "
+                             "the entry in known_findings.txt may be stale" % f["key"])
     L.fill_coverage(run, results, cover, summary, scripts, cnt,
                     rule="distinct = distinct (pool, initial config, director script) among accepted traces; families: corpus + f8 (the repaired "
                          "stop-between-setconfig-and-boot witness, mock and real nested composite children; must now end unblocked), stale (the "
